@@ -17,6 +17,7 @@ import (
 	myraft "github.com/feichai0017/NoKV/raft"
 	"github.com/feichai0017/NoKV/raftstore/peer"
 	"github.com/feichai0017/NoKV/raftstore/store"
+	"github.com/feichai0017/NoKV/wal"
 )
 
 const regionID = 1
@@ -87,6 +88,8 @@ type incarn struct {
 	reads    map[*pb.RaftCmdRequest]bool // requests announced by the read observer
 	lastAppl *event
 	peer     *peer.Peer
+	wal      *wal.Manager
+	man      *manifest.Manager
 }
 
 type opState struct {
@@ -149,13 +152,27 @@ func (n *node) start() error {
 		Epoch: manifest.RegionEpoch{Version: 1, ConfVersion: 1},
 		Peers: []manifest.PeerMeta{{StoreID: 1, PeerID: 1}, {StoreID: 2, PeerID: 2}, {StoreID: 3, PeerID: 3}},
 	}
+	// The raft log lives where production keeps it: a WAL-backed storage
+	// (engine.WALStorage) over a wal.Manager and a manifest in the store's
+	// directory, reopened on restart.
+	sdir := filepath.Join(c.dir, fmt.Sprintf("s%d", n.id))
+	w, err := wal.Open(wal.Config{Dir: filepath.Join(sdir, "wal")})
+	if err != nil {
+		return err
+	}
+	m, err := manifest.Open(filepath.Join(sdir, "manifest"), nil)
+	if err != nil {
+		return err
+	}
+	in.wal, in.man = w, m
 	cfg := &peer.Config{
 		RaftConfig: myraft.Config{ID: n.id, ElectionTick: 10, HeartbeatTick: 1, MaxSizePerMsg: 1 << 20,
 			MaxInflightMsgs: 256, PreVote: true, Logger: quietLogger},
-		Transport:  netT{c},
-		StorageDir: filepath.Join(c.dir, fmt.Sprintf("s%d", n.id)),
-		GroupID:    regionID,
-		Region:     &region,
+		Transport: netT{c},
+		WAL:       w,
+		Manifest:  m,
+		GroupID:   regionID,
+		Region:    &region,
 	}
 	p, err := n.st.StartPeer(cfg, []myraft.Peer{{ID: 1}, {ID: 2}, {ID: 3}})
 	if err != nil {
@@ -394,9 +411,19 @@ func (c *cluster) restart(n *node) error {
 	n.inc.dead = true
 	c.log(&event{kind: "start", s: n.id})
 	c.mu.Unlock()
+	n.stop()
+	return n.start()
+}
+
+func (n *node) stop() {
 	n.st.StopPeer(n.id)
 	n.st.Close()
-	return n.start()
+	if n.inc.wal != nil {
+		_ = n.inc.wal.Close()
+	}
+	if n.inc.man != nil {
+		_ = n.inc.man.Close()
+	}
 }
 
 // peerOf returns the peer of incarnation in (the read observer runs on client
@@ -445,8 +472,7 @@ func (c *cluster) finish() []*event {
 	for id := 1; id <= 3; id++ {
 		n := c.nodes[id]
 		if n.up {
-			n.st.StopPeer(n.id)
-			n.st.Close()
+			n.stop()
 		}
 	}
 	_ = os.RemoveAll(c.dir)
